@@ -462,9 +462,14 @@ CacheCoherent == Len(hist) > 0 => mc = Traverse(inst.S, inst.R, last[1], last[2]
 
 ----------------------------------------------------------------------------
 (* records for the replay on the real code                                 *)
+\* the blocks of tot are those of the selected residual system: its matrix is unimodular (under the
+\* rules as read the selection may be a system on which the integer inverse of Mat does not apply;
+\* the prediction is then only "the code answers", not which blocks)
+SolvedExactly ==
+  (err = {} /\ mc # {}) => IsUnimodular(Assemble(inst, dio, Sorted(mc), Sorted(mc), TRUE))
 EmitOK ==
   IF ~Emit THEN TRUE
   ELSE IF Len(hist) = 0
        THEN PrintT(<<"INST", inst.key, inst.rules, inst.pre, inst.S, inst.size, inst.J, inst.nilp, inst.R.N, inst.R.mg, inst.cf>>)
-       ELSE PrintT(<<"CASE", inst.key, inst.rules, inst.pre, hist, err, mc, tot>>)
+       ELSE PrintT(<<"CASE", inst.key, inst.rules, inst.pre, hist, err, mc, tot, SolvedExactly>>)
 =============================================================================
